@@ -173,4 +173,24 @@ def toModel {α : Type} : VW × Outcome α → VS × W × Option α
   | (s, .err) => (s.1, s.2.flag "unexpected AllocErr", none)
   | (s, .envBad) => (s.1, s.2.flag "unexpected envBad", none)
 
+
+/-! ### `Splice::drop` (tools/rs2lean_splicedrop.py) -/
+
+/-- `vec.extend(it.by_ref())`: `Extend` through a borrowed iterator — the model's `extendRef` (the translated `Vec::extend`,
+`gen_vec_extend_raw`, is this followed by the drop of the iterator); `false` = a panic (of the iterator or of the growth) -/
+def extend_by_ref (c : V.Cfg) (it : V.It) (s : VW) : VW × V.It × Outcome Unit :=
+  match V.extendRef c s.1 it s.2 with
+  | (v, it, w, ok) => ((v, w), it, if ok then .ok () else .panic)
+
+/-- `collected.extend(it.by_ref())` into a second, private vector holding `acc0`: what the iterator still yields, in order; when
+the iterator panics the unwinding drops the partly filled vector (growth of that vector is outside the model: it cannot fail
+short of running out of memory) -/
+def collect_by_ref (c : V.Cfg) (acc0 : List V.Elem) (it : V.It) (s : VW) : VW × V.It × Outcome (List V.Elem) :=
+  match V.collectRest c (it.remaining + 1) it s.2 acc0 with
+  | (it, w, acc, true) => ((s.1, w), it, .ok acc)
+  | (it, w, acc, false) => ((s.1, (V.dropAll c acc w).1), it, .panic)
+
+/-- an owning iterator the frame holds goes out of scope: what it has left is dropped -/
+def drop_it (c : V.Cfg) (it : V.It) (s : VW) : VW × Outcome Unit := ((s.1, it.dropRest c s.2), .ok ())
+
 end Bump.RsM
